@@ -784,7 +784,10 @@ impl RADAU {
                 }
 
                 // Sophisticated step size control
-                if (x + hnew / quot1 - xend) * posneg >= 0.0 {
+                // (a step that would end within rounding of xend is the last one as well: it lands on
+                // xend itself, so that a requested time at xend is delivered)
+                let landing_slack = if span_scale.is_finite() { 4.0 * Float::EPSILON * span_scale } else { 0.0 };
+                if (x + hnew / quot1 - xend) * posneg >= -landing_slack {
                     h = xend - x;
                     last = true;
                 } else {
